@@ -205,6 +205,7 @@ func oneRun(b *o4.Bridge, s *scenario, rng *mrand.Rand, bit int) bool {
 			break
 		}
 	}
+	flipped := map[[2]int]bool{}
 	for mi, m := range s.Moves {
 		i := m.I - 1
 		switch m.M {
@@ -223,6 +224,10 @@ func oneRun(b *o4.Bridge, s *scenario, rng *mrand.Rand, bit int) bool {
 				if mi != flipFirst || k < lo || k >= hi {
 					k = lo + rng.Intn(hi-lo)
 				}
+				for flipped[[2]int{c.id, k}] && hi-lo > 1 { // never undo an earlier flip of the same bit
+					k = lo + rng.Intn(hi-lo)
+				}
+				flipped[[2]int{c.id, k}] = true
 				nb[k/8] ^= 1 << uint(k%8)
 				cells[i] = cell{c.id, false, nb}
 			}
